@@ -15,8 +15,10 @@ from core import enc_str
 
 PROPERTY = "C01"
 
-# CODE VARIANT FLAGS — the values that match TODAY's code in /repo.  The composition layer has no defect flag of its own: it
-# follows the flags of the layers it is built from (so a repair recorded there is picked up here without an edit).
+# CODE VARIANT FLAGS — the values that match the code in /repo as it is now.  The composition layer has no defect flag of its own: it
+# follows the flags of the layers it is built from (so a repair recorded there is picked up here without an edit): every imported flag
+# holds its repaired value (FRAMES_VARIANT 0, TEXT_FLAGS "00000000", TABLE_FLAGS "000000").  The `except` fallbacks are never taken in a
+# normal run; their literals date from before fixes f5f2be9 / f7ecf83 (rstripCountsChars, columnsZeroCount = rich 9.10.0 as found).
 try:  # frames (Model/Frames.lean `Variant`): bitmask 1 zeroWidthChild, 2 ruleRightRepeat, 4 rstripCountsChars, 8 columnsZeroCount
     from props.c08 import VARIANT as FRAMES_VARIANT
 except Exception:  # pragma: no cover
@@ -25,7 +27,7 @@ try:  # text / wrap (Model/Text.lean `Variant` x6, Model/Wrap.lean `justifyNeg`,
     from props.c02 import FLAGS as TEXT_FLAGS
 except Exception:  # pragma: no cover
     TEXT_FLAGS = "00000001"
-try:  # table (Model/Table.lean `Flags`: leadingRepeat, minWidthCapsExpand, fixedRawMaximum)
+try:  # table (Model/Table.lean `Flags`: leadingRepeat, minWidthCapsExpand, fixedRawMaximum, noColumnsAsserts, flexNegative, staleTableWidth)
     from props.c07 import FLAGS as _TF
     TABLE_FLAGS = "".join(str(int(x)) for x in _TF)
 except Exception:  # pragma: no cover
